@@ -316,8 +316,9 @@ pub fn any_pkt5() -> Pkt5 {
 }
 
 /// Run `$run(<literal>)` for the octet-0 value `$b` (LI<<6 | VN<<3 | Mode); other values of `$b`
-/// are assumed away. `quick`: v4 server / client, v3 server, v5 (undecodable in 48 bytes). `full`: v4 and v3 in all eight modes with LI 0 and 3, v5 with two
-/// modes, one value for each of the versions 0,1,2,6,7 and one more LI. `all`: all 256 values
+/// are assumed away. `quick`: v4 server / client, v3 server, v5 (undecodable in 48 bytes). `quick_a` / `quick_b`: v4 server / client / broadcast and v3 server / client / v5.
+/// `full`: v4 and v3 in all eight modes, v4 client / server with LI=3, v5 and one value for each
+/// of the versions 0,1,2,6,7 (24 values). `all`: all 256 values
 /// (about 10 s of symbolic execution per value: too slow for the tiers, kept for manual runs).
 #[macro_export]
 macro_rules! for_b0 {
@@ -327,11 +328,17 @@ macro_rules! for_b0 {
     (servers, $b:expr, $run:ident) => {
         $crate::for_b0!(@m $b, $run, [0x24, 0x1C])
     };
+    (quick_a, $b:expr, $run:ident) => {
+        $crate::for_b0!(@m $b, $run, [0x24, 0x23, 0x25])
+    };
+    (quick_b, $b:expr, $run:ident) => {
+        $crate::for_b0!(@m $b, $run, [0x1C, 0x1B, 0x2C])
+    };
     (full, $b:expr, $run:ident) => {
         $crate::for_b0!(@m $b, $run, [
-            0x20, 0x21, 0x22, 0x23, 0x24, 0x25, 0x26, 0x27, 0xE0, 0xE1, 0xE2, 0xE3, 0xE4, 0xE5, 0xE6, 0xE7,
-            0x18, 0x19, 0x1A, 0x1B, 0x1C, 0x1D, 0x1E, 0x1F, 0xD8, 0xD9, 0xDA, 0xDB, 0xDC, 0xDD, 0xDE, 0xDF,
-            0x2C, 0x6B, 0x04, 0x0C, 0x14, 0x34, 0x3C, 0x64
+            0x20, 0x21, 0x22, 0x23, 0x24, 0x25, 0x26, 0x27, 0xE3, 0xE4,
+            0x18, 0x19, 0x1A, 0x1B, 0x1C, 0x1D, 0x1E, 0x1F,
+            0x2C, 0x04, 0x0C, 0x14, 0x34, 0x3C
         ])
     };
     (all, $b:expr, $run:ident) => {
